@@ -74,8 +74,9 @@ def run_tlc(module, cfg=None, env=None, workers=1, xmx="2g", timeout=3600, extra
     tag = tag or module
     metadir = os.path.join(WORK, "md", "%s-%d-%d" % (tag, os.getpid(), int(time.time() * 1000) % 10 ** 9))
     os.makedirs(metadir, exist_ok=True)
+    cfgpath = cfg if (cfg and os.path.isabs(cfg)) else (cfg or module) + ".cfg"
     cmd = java_cmd(xmx=xmx, gc=gc, deque=deque) + ["-workers", str(workers), "-metadir", metadir, "-cleanup",
-                                                   "-noGenerateSpecTE", "-config", (cfg or module) + ".cfg"]
+                                                   "-noGenerateSpecTE", "-config", cfgpath]
     if simulate:
         cmd += ["-simulate", simulate]
     cmd += list(extra) + [module + ".tla"]
@@ -112,3 +113,26 @@ def require_clean(results, what):
         if not r.ok:
             tail = "\n".join(r.out.splitlines()[-25:])
             raise ToolError("%s: TLC did not complete normally:\n%s" % (what, tail))
+
+
+def run_mc(ctx, module, cfg_text, name=None, workers=8, xmx="8g", timeout=3600, must_cover=(), env=None):
+    """Model-check spec/<module>.tla under a generated cfg.  A violated invariant/property of a design-level
+    instance is reported by the caller; tool trouble raises ToolError.  must_cover: action names that must
+    have been taken at least once (vacuity control; otherwise ToolError)."""
+    d = os.path.join(WORK, "cfg")
+    os.makedirs(d, exist_ok=True)
+    cfg = os.path.join(d, (name or module) + ".cfg")
+    with open(cfg, "w") as f:
+        f.write(cfg_text)
+    r = run_tlc(module, cfg=cfg, workers=workers, xmx=xmx, timeout=timeout, extra=("-coverage", "1"), tag=name or module,
+                deque=False, gc="Parallel", env=env)
+    if ctx is not None:
+        ctx.add_tlc([r])
+    if not r.ok and r.violated is None:
+        tail = "\n".join(r.out.splitlines()[-25:])
+        raise ToolError("%s: TLC failed:\n%s" % (name or module, tail))
+    for a in must_cover:
+        hits = [v for k, v in r.coverage.items() if k.endswith("!" + a)]
+        if not hits or max(h[0] for h in hits) == 0:
+            raise ToolError("%s: action %s was never taken (vacuous instance)" % (name or module, a))
+    return r
